@@ -6,10 +6,17 @@ import numpy as np
 def replay_cursor(obname, model):
     from t2listing import t2listing
     repo = os.environ.get('PYTOUGH_REPO') or [p for p in __import__('sys').path if os.path.exists(os.path.join(p, 't2listing.py'))][0]
-    fn = os.path.join(repo, 'tests', 'listing', 'AUTOUGH2', '1', 'case1.listing')
-    if not os.path.exists(fn):
-        fn = sorted(glob.glob(os.path.join(repo, 'tests', 'listing', 'AUTOUGH2', '*', '*.listing')))[0]
-    lst = t2listing(fn)
+    lst = None
+    for fn in sorted(glob.glob(os.path.join(repo, 'tests', 'listing', 'AUTOUGH2', '*', '*.listing'))) + \
+            sorted(glob.glob(os.path.join(repo, 'tests', 'listing', 'TOUGH2', '*', '*'))):
+        if fn.endswith(('.npy', '~')) or os.path.getsize(fn) > 3000000:
+            continue
+        cand = t2listing(fn)
+        if cand.num_fulltimes >= 3:
+            lst = cand
+            break
+    if lst is None:
+        return True, 'no shipped listing with three result times found'
     n = lst.num_fulltimes
     problems = []
     fresh = t2listing(fn)
